@@ -2,7 +2,7 @@
 # usage: tools/benign_ext.sh <dir-with-NN.diff> <tag>  — applies each behaviour-preserving patch to a scratch worktree of /repo HEAD and runs
 # all 17 quick checks on it. A VIOLATION here is a FALSE ALARM of the checks; UNDECIDED (exit 2) is tolerated but counted.
 DIR=$1; TAG=$2
-cd /verif
+cd ${VROOT:-/verif}
 for d in $DIR/*.diff; do
   n=$(basename $d .diff); WT=/tmp/bn_${TAG}_$n
   git -C /repo worktree remove --force $WT 2>/dev/null
